@@ -1457,6 +1457,12 @@ func (k *tsmKeyIterator) EstimatedIndexSize() int {
 // Next returns true if there are any values remaining in the iterator.
 func (k *tsmKeyIterator) Next() bool {
 RETRY:
+	// A block that could not be read or decoded ends the iteration: it stays in k.blocks and
+	// would otherwise be merged again and again.  The caller gets the error from Err().
+	if len(k.errs) > 0 {
+		return false
+	}
+
 	// Any merged blocks pending?
 	if len(k.merged) > 0 {
 		k.merged = k.merged[1:]
@@ -1760,6 +1766,12 @@ func (k *tsmBatchKeyIterator) EstimatedIndexSize() int {
 // Next returns true if there are any values remaining in the iterator.
 func (k *tsmBatchKeyIterator) Next() bool {
 RETRY:
+	// A block that could not be read or decoded ends the iteration: it stays in k.blocks and
+	// would otherwise be merged again and again.  The caller gets the error from Err().
+	if len(k.errs) > 0 {
+		return false
+	}
+
 	// Any merged blocks pending?
 	if len(k.merged) > 0 {
 		k.merged = k.merged[1:]
